@@ -265,7 +265,7 @@ def b_items(k, f):
 
 
 def b_fail_second(f):
-    if f.name == 'f1':
+    if f.iloc[0, 0] == 1:      # the second Frame, whatever its name or label
         raise ValueError('f1 fails')
     return f * 2
 
@@ -297,14 +297,20 @@ def run_batch(case, ctx):
     name, fn, must_raise = BATCH_CASES[op]
 
     def run(workers, chunk, threads, n):
-        if n < 0:
+        if n == 'dup':
+            # repeated Batch labels (unnamed Frames all carry the label None; explicit repeats): one result per input, in input order
+            fr_ = b_frames(3)
+            b = sf.Batch(iter([('L', fr_[0]), ('M', fr_[1]), ('L', fr_[2])]), max_workers=workers, chunksize=chunk, use_threads=threads)
+        elif n == 'unnamed':
+            b = sf.Batch.from_frames([f.rename(None) for f in b_frames(3)], max_workers=workers, chunksize=chunk, use_threads=threads)
+        elif n < 0:
             # Batch labels that are not the names of the Frames (as when a Batch is built from group items): results are labelled by the Batch label
             b = sf.Batch(((f'L{i}', f) for i, f in enumerate(b_frames(-n))), max_workers=workers, chunksize=chunk, use_threads=threads)
         else:
             b = sf.Batch.from_frames(b_frames(n), max_workers=workers, chunksize=chunk, use_threads=threads)
         r = fn(b)
         return tuple((k, snap(v)) for k, v in r.items())
-    for n in (3, -3, 4) if tier != 'quick' else (3, -3):
+    for n in (3, -3, 'dup', 'unnamed', 4) if tier != 'quick' else (3, -3, 'dup', 'unnamed'):
         seq = outcome(lambda: run(None, 1, False, n))
         if must_raise and seq[0] != 'raises':
             ctx.violation(f'batch|{name}|sequential-does-not-raise', got=repr(seq)[:300])
@@ -345,16 +351,16 @@ def run_zip(case, ctx):
         for workers, chunk in itertools.product([w for w in sc['workers'] if w > 1 and (len(case) < 3 or w == case[2])], sc['chunks']):
             cfg = sf.StoreConfig(read_max_workers=workers, read_chunksize=chunk, write_max_workers=workers, write_chunksize=chunk)
             info = dict(max_workers=workers, chunksize=chunk)
-            for fmt, to, frm in (('zip_pickle', 'to_zip_pickle', 'from_zip_pickle'), ('zip_csv', 'to_zip_csv', 'from_zip_csv'), ('zip_csv-per-label-config', 'to_zip_csv', 'from_zip_csv'),
+            for fmt, to, frm in (('zip_pickle', 'to_zip_pickle', 'from_zip_pickle'), ('zip_pickle-labels-are-not-the-frame-names', 'to_zip_pickle', 'from_zip_pickle'), ('zip_csv', 'to_zip_csv', 'from_zip_csv'), ('zip_csv-per-label-config', 'to_zip_csv', 'from_zip_csv'),
                                  ('zip_csv-no-labels-written', 'to_zip_csv', 'from_zip_csv'), ('zip_tsv-no-index-written', 'to_zip_tsv', 'from_zip_tsv')):
-                cfgm = cfg if fmt == 'zip_pickle' else sf.StoreConfig(index_depth=1, read_max_workers=workers, read_chunksize=chunk, write_max_workers=workers, write_chunksize=chunk)
+                cfgm = cfg if fmt.startswith('zip_pickle') else sf.StoreConfig(index_depth=1, read_max_workers=workers, read_chunksize=chunk, write_max_workers=workers, write_chunksize=chunk)
                 if fmt == 'zip_csv-per-label-config':
                     # every label has its own read configuration (the hierarchical frame needs index_depth=2); workers are set on all of them
                     mk = lambda d: sf.StoreConfig(index_depth=d, read_max_workers=workers, read_chunksize=chunk, write_max_workers=workers, write_chunksize=chunk)
                     cfgm = sf.StoreConfigMap({f.name: mk(f.index.depth) for f in frames_h}, default=mk(1))
                 wp = os.path.join(workdir(), f'c18_w_{fmt}_{workers}.zip')
                 fr = frames_h if fmt == 'zip_csv-per-label-config' else frames
-                cfg1 = sf.StoreConfig(index_depth=1) if fmt != 'zip_pickle' else None
+                cfg1 = sf.StoreConfig(index_depth=1) if not fmt.startswith('zip_pickle') else None
                 if fmt == 'zip_csv-per-label-config':
                     cfg1 = sf.StoreConfigMap({f.name: sf.StoreConfig(index_depth=f.index.depth) for f in frames_h}, default=sf.StoreConfig(index_depth=1))
                 if fmt in ('zip_csv-no-labels-written', 'zip_tsv-no-index-written'):
@@ -363,9 +369,16 @@ def run_zip(case, ctx):
                     cfg1 = sf.StoreConfig(**kw_)
                     cfgm = sf.StoreConfig(read_max_workers=workers, read_chunksize=chunk, write_max_workers=workers, write_chunksize=chunk, **kw_)
 
+                blabels = [f.name for f in fr]
+                if fmt == 'zip_pickle-labels-are-not-the-frame-names':
+                    # pickled Frames keep their own names whatever label they are stored under (one unnamed, one named by a tuple)
+                    fr = [fr[0], fr[1].rename(None), fr[2].rename(('t', 1)), fr[3]]
+                    blabels = ['L0', 'L1', 'L2', 'L3']
+                mkbus = lambda: sf.Bus.from_items(zip(blabels, fr))
+
                 def observe(b, through_pool):
                     # the archive's own label order (member order of the zip, as written) is part of the result; a multi-label read goes through the pool
-                    sel = b.loc[[f.name for f in fr]] if through_pool else b
+                    sel = b.loc[list(blabels)] if through_pool else b
                     return (('labels-in-store-order', tuple(b.index.values.tolist())),) + tuple((k, snap(v)) for k, v in zip(sel.index.values.tolist(), (sel._series.values if through_pool else [b[k] for k in b.index])))
 
                 def fresh(path):
@@ -374,7 +387,7 @@ def run_zip(case, ctx):
 
                 # reference: single-worker write, single-worker read
                 fresh(wp)
-                getattr(sf.Bus.from_frames(fr), to)(wp, config=cfg1)
+                getattr(mkbus(), to)(wp, config=cfg1)
                 one = outcome(lambda: observe(getattr(sf.Bus, frm)(wp, config=cfg1), False))
                 if one[0] != 'ok':
                     ctx.violation(f'zip|{fmt}|single-worker-round-trip-fails', **info, got=repr(one)[:300])
@@ -387,7 +400,7 @@ def run_zip(case, ctx):
 
                 def write_pool():
                     fresh(wp)
-                    getattr(sf.Bus.from_frames(fr), to)(wp, config=cfgm)
+                    getattr(mkbus(), to)(wp, config=cfgm)
                     return observe(getattr(sf.Bus, frm)(wp, config=cfg1), False)
                 for phase, body in (('read', read_pool), ('write', write_pool)):
                     for trace, order, out in explore_capped(lambda: outcome(body), 5000):
